@@ -52,14 +52,11 @@ impl<'h> FindMatchesImpl<'h> {
     /// The function is used to set the position of the char_indices iterator to the given position.
     pub(crate) fn set_offset(&mut self, offset: usize) {
         trace!("Set offset to {}", offset);
-        if offset <= self.input.len() {
-            // Split the input a byte position `offset` and create a new char_indices iterator.
-            self.char_indices = self.input[offset..].char_indices();
-        } else {
-            // The position is greater than the length of the haystack.
-            // Take an empty slice after the haystack to create an empty char_indices iterator.
-            self.char_indices = self.input[self.input.len()..self.input.len()].char_indices();
-        }
+        // If the position is greater than the length of the haystack it is set to the length of
+        // the haystack, which results in an empty char_indices iterator.
+        let offset = offset.min(self.input.len());
+        // Split the input a byte position `offset` and create a new char_indices iterator.
+        self.char_indices = self.input[offset..].char_indices();
         self.last_position = 0;
         self.offset = offset;
     }
@@ -79,7 +76,7 @@ impl<'h> FindMatchesImpl<'h> {
         loop {
             result = self
                 .scanner_impl
-                .find_from(self.input, self.char_indices.clone());
+                .find_from(&self.input[self.offset..], self.char_indices.clone());
             if let Some(mut matched) = result {
                 self.advance_beyond_match(matched);
                 matched.add_offset(self.offset);
@@ -111,7 +108,7 @@ impl<'h> FindMatchesImpl<'h> {
         for _ in 0..n {
             let result = self
                 .scanner_impl
-                .peek_from(self.input, char_indices.clone());
+                .peek_from(&self.input[self.offset..], char_indices.clone());
             if let Some(mut matched) = result {
                 let token_type = matched.token_type();
                 Self::advance_char_indices_beyond_match(&mut char_indices, matched);
